@@ -48,7 +48,11 @@ type Case struct {
 	K           int       `json:"k,omitempty"`
 }
 
-var readFaultKinds = []string{"error", "eof", "error-with-data", "error-with-data-then-eof", "error-then-eof"}
+var readFaultKinds = []string{"error", "eof", "error-with-data", "error-with-data-then-eof", "error-then-eof", "error-wrapping-eof", "error-unexpected-eof", "error-wrapping-eof-with-data"}
+
+// a transport failure whose error value wraps io.EOF ("connection lost: EOF"): errors.Is(err, io.EOF) holds, yet
+// it is not the end of the stream (io.Reader signals that with io.EOF itself)
+var errWrappedEOF = fmt.Errorf("verif: transport: connection lost: %w", io.EOF)
 
 // faultReader delivers data in chunks and injects a fault after `limit` bytes.
 type faultReader struct {
@@ -452,6 +456,12 @@ func run(c *h.Ctx, cs Case) {
 		}
 		r := &faultReader{data: art, limit: k, ferr: ferr, chunk: cs.Chunk}
 		switch cs.FaultKind {
+		case "error-wrapping-eof":
+			r.ferr = errWrappedEOF
+		case "error-wrapping-eof-with-data":
+			r.ferr, r.withData = errWrappedEOF, true
+		case "error-unexpected-eof":
+			r.ferr = io.ErrUnexpectedEOF
 		case "error-with-data":
 			// the error comes back from the same Read call as the last bytes before the fault, then the error again
 			r.withData = true
@@ -714,7 +724,10 @@ func TestFaultEnumeration(t *testing.T) {
 				}
 				// read faults at every offset
 				for k := 0; k <= len(b.bytes); k++ {
-					for _, fk := range readFaultKinds {
+					for fi, fk := range readFaultKinds {
+						if h.Tier() == "quick" && fi >= 2 && (k+fi)%4 != 0 && k > 12 && k < len(b.bytes)-12 {
+							continue // quick tier: the secondary fault shapes at every 4th offset (rotating) and near both ends
+						}
 						if k == len(b.bytes) && fk == "eof" {
 							continue
 						}
